@@ -38,7 +38,7 @@ type pssSub struct {
 	state  string // manual: idle|receiving|holding|waiting|left ; iter: receiving|libwait|body|left ; never-run: dormant|left
 	quit   chan struct{}
 	ack    chan struct{}
-	cont   chan bool
+	cont   chan int // 1 = continue, 0 = break, 2 = leave by panic (recovered by the caller), 3 = runtime.Goexit
 	cancel context.CancelFunc
 	op     *vkit.Op // the goroutine of the current receive cycle (manual) or the whole iterator
 	leave  *vkit.Op // a launched Add(-1) of an idle manual subscriber
@@ -70,7 +70,12 @@ type pssMachine struct {
 	deferredSub  bool
 }
 
-func (m *pssMachine) tr(f string, a ...any) { m.trace = append(m.trace, fmt.Sprintf(f, a...)) }
+func (m *pssMachine) tr(f string, a ...any) {
+	m.trace = append(m.trace, fmt.Sprintf(f, a...))
+	if os.Getenv("VKIT_DEBUG") != "" {
+		fmt.Println("TRACE", m.trace[len(m.trace)-1])
+	}
+}
 
 func (m *pssMachine) cleanup() {
 	for _, s := range m.subs {
@@ -93,7 +98,7 @@ func (m *pssMachine) cleanup() {
 		}
 		if s.cont != nil {
 			select {
-			case s.cont <- false:
+			case s.cont <- 0:
 			default:
 			}
 		}
@@ -186,7 +191,7 @@ func (m *pssMachine) startIter(s *pssSub, ctx context.Context) {
 	x := m.x
 	ev := make(chan int, 16)
 	s.bodyEvent = ev
-	s.cont = make(chan bool)
+	s.cont = make(chan int)
 	cont := s.cont
 	seq := x.SubscribeContext(ctx)
 	if s.kind == "iter-never-run" {
@@ -195,12 +200,23 @@ func (m *pssMachine) startIter(s *pssSub, ctx context.Context) {
 	}
 	s.state = "receiving"
 	s.op = vkit.Launch("iterator", func() any {
-		for v := range seq {
-			ev <- v
-			if !<-cont {
-				break
+		done := make(chan struct{})
+		go func() {
+			defer close(done)
+			defer func() { _ = recover() }()
+			for v := range seq {
+				ev <- v
+				switch <-cont {
+				case 0:
+					return
+				case 2:
+					panic("pss: leaving the iterator by panic")
+				case 3:
+					runtime.Goexit()
+				}
 			}
-		}
+		}()
+		<-done
 		return "iterator-done"
 	})
 }
@@ -451,8 +467,9 @@ func (m *pssMachine) ruleBody(t *rapid.T) {
 	if s == nil {
 		t.Skip("no iterator in its body")
 	}
-	again := rapid.IntRange(0, 3).Draw(t, "continue") != 0
-	s.cont <- again
+	how := rapid.SampledFrom([]int{1, 1, 1, 1, 0, 0, 2, 3}).Draw(t, "continue")
+	again := how == 1
+	s.cont <- how
 	if again {
 		s.state = "receiving"
 		m.tr("it%d:continue", s.id)
@@ -462,7 +479,7 @@ func (m *pssMachine) ruleBody(t *rapid.T) {
 			m.midSendLeave = true
 		}
 		s.state = "left"
-		m.tr("it%d:break", s.id)
+		m.tr("it%d:leave(%s)", s.id, map[int]string{0: "break", 2: "panic", 3: "goexit"}[how])
 	}
 	m.step()
 	if !again {
@@ -499,7 +516,7 @@ func (m *pssMachine) ruleLeave(t *rapid.T) {
 	case "iter":
 		s.cancel()
 		if s.state == "body" {
-			s.cont <- true // the loop notices the cancellation before receiving again
+			s.cont <- 1 // the loop notices the cancellation before receiving again
 		}
 	default:
 		s.cancel() // the AfterFunc unsubscribes
@@ -557,6 +574,9 @@ func TestPubSubStep(t *testing.T) {
 					if _, ok := r.(pssAbort); ok {
 						return
 					}
+					if os.Getenv("VKIT_DEBUG") != "" {
+						fmt.Printf("TRACE panic: %v\n", r)
+					}
 					m.cleanup()
 					panic(r)
 				}
@@ -573,6 +593,7 @@ func TestPubSubStep(t *testing.T) {
 			add("body", 3, m.ruleBody)
 			add("leave", 2, m.ruleLeave)
 			add("send", 3, m.ruleSend)
+			add("observe", 1, func(*rapid.T) { m.step() }) // always enabled (rapid gives up when every drawn action skips)
 			t.Repeat(acts)
 			// ---- teardown: finish the Send in flight, everybody leaves
 			m.tr("teardown")
@@ -591,7 +612,7 @@ func TestPubSubStep(t *testing.T) {
 						}
 						s.state = "left"
 					case s.kind == "iter" && s.state == "body" && s.counted && !s.received:
-						s.cont <- true // back to receiving: it takes its copy
+						s.cont <- 1 // back to receiving: it takes its copy
 						s.state = "receiving"
 					}
 				}
@@ -611,7 +632,7 @@ func TestPubSubStep(t *testing.T) {
 				case s.kind == "iter" && (s.state == "receiving" || s.state == "body"):
 					s.cancel()
 					if s.state == "body" {
-						s.cont <- true
+						s.cont <- 1
 					}
 					s.state = "left"
 				case s.kind == "iter-never-run" && s.state == "dormant":
